@@ -6,7 +6,7 @@ import itertools
 from common import rng
 from framework import Sweep
 import corr_ver
-from gen_ver import CLS, base_strings, exhaustive_pkg_small, parse_ok, pkg_strings, sem_strings
+from gen_ver import CLS, base_strings, exhaustive_pkg_small, parse_ok, pkg_strings, pkg_variant_group, sem_same_release, sem_strings
 
 RULE = ("objects parsed from the bounded grammars of the three version classes; a case is an ordered pair/triple "
         "(class, a, b[, c]) x clause; distinct = distinct (clause, strings) tuples; trivial pairs a==a are not counted")
@@ -78,6 +78,49 @@ def sweep(tier: str) -> Sweep:
                     sw.check(ops(a, x) == ops(b, x), "== is not compatible with the order", {**case, "clause": "eq-compat"})
                 if a == b and b == x:
                     sw.check(a == x, "== is not transitive", {**case, "clause": "eq-transitive"})
+            except Exception as e:  # noqa: BLE001
+                sw.check(False, "comparison raised", {**case, "clause": "no-exception"}, None, f"{type(e).__name__}: {e}")
+    # inside one release the tags decide: every pair and every triple of a tag pool
+    S = CLS["sem"]
+    for rel, strs in sem_same_release().items():
+        objs = [(s, o) for s in strs if (o := parse_ok(S, s)) is not None]
+        n_ = len(objs)
+        LT = [[None] * n_ for _ in range(n_)]
+        EQ = [[None] * n_ for _ in range(n_)]
+        for i, (sa, a) in enumerate(objs):
+            for j, (sb, b) in enumerate(objs):
+                sw.note(["same-release-pair", sa, sb], "pair")
+                try:
+                    o = ops(a, b)
+                    LT[i][j], EQ[i][j] = o["lt"], o["eq"]
+                    sw.check(o["lt"] + o["eq"] + o["gt"] == 1, "not exactly one of <, ==, >", {"cls": "sem", "a": sa, "b": sb, "clause": "trichotomy"}, None, o)
+                    if o["eq"]:
+                        sw.check(hash(a) == hash(b), "equal versions with different hashes", {"cls": "sem", "a": sa, "b": sb, "clause": "hash"})
+                except Exception as e:  # noqa: BLE001
+                    sw.check(False, "comparison raised", {"cls": "sem", "a": sa, "b": sb, "clause": "no-exception"}, None, f"{type(e).__name__}: {e}")
+        # every triple of the pool, from the comparison matrix
+        for i in range(n_):
+            for j in range(n_):
+                if LT[i][j] is None:
+                    continue
+                for k in range(n_):
+                    if LT[j][k] is None or LT[i][k] is None:
+                        continue
+                    sw.evaluations += 1
+                    if LT[i][j] and LT[j][k] and not LT[i][k]:
+                        sw.check(False, "< is not transitive", {"cls": "sem", "a": objs[i][0], "b": objs[j][0], "c": objs[k][0], "clause": "transitive"})
+                    if EQ[i][j] and (LT[i][k] != LT[j][k] or EQ[i][k] != EQ[j][k]):
+                        sw.check(False, "== is not compatible with the order", {"cls": "sem", "a": objs[i][0], "b": objs[j][0], "c": objs[k][0], "clause": "eq-compat"})
+    # spelling variants of one PEP 440 version are equal and hash equal
+    Pk = CLS["pkg"]
+    for _ in range(150 if tier == "quick" else 2500):
+        grp = [(s, o) for s in pkg_variant_group(r) if (o := parse_ok(Pk, s)) is not None]
+        for (sa, a), (sb, b) in itertools.combinations(grp, 2):
+            case = {"cls": "pkg", "a": sa, "b": sb}
+            sw.note(["variant", sa, sb], "variant")
+            try:
+                sw.check(a == b and not a < b and not a > b, "spelling variants of one version do not compare equal", {**case, "clause": "variants"})
+                sw.check(hash(a) == hash(b), "equal versions with different hashes", {**case, "clause": "hash"}, "equal hashes", [hash(a), hash(b)])
             except Exception as e:  # noqa: BLE001
                 sw.check(False, "comparison raised", {**case, "clause": "no-exception"}, None, f"{type(e).__name__}: {e}")
     # semantic versions: build ignored, pre-release below release, release numbers dominate
